@@ -108,14 +108,24 @@ def build(inst, rnd=None):
             else:
                 raise Machinery('kind ' + k)
         objs.append(o)
-    for i in range(1, len(objs)):
+    def declare(i, arg=None):
         r = inst['elems'][i]['rel']
+        a = r['arg'] if arg is None else arg
+        num = None if a is None else (float(Fraction(a)) if Fraction(a).denominator != 1 else int(Fraction(a)))
         if r['type'] == 'joint':
             add_fixed_joint(objs[i - 1], objs[i])
         elif r['type'] == 'gear':
-            add_gear_mating(objs[i - 1], objs[i], float(Fraction(r['arg'])) if Fraction(r['arg']).denominator != 1 else int(Fraction(r['arg'])))
+            add_gear_mating(objs[i - 1], objs[i], num)
         else:
-            add_worm_gear_mating(objs[i - 1], objs[i], float(Fraction(r['arg'])) if Fraction(r['arg']).denominator != 1 else int(Fraction(r['arg'])))
+            add_worm_gear_mating(objs[i - 1], objs[i], num)
+    # relations that are declared first and then superseded by the final ones (a design revision): a spur gear without
+    # tooth data that is finally on a fixed joint is first made the slave of a temporary gear of another size (efficiency 1)
+    for i in inst.get('pre_declare', []):
+        tmp = SpurGear(f'tmp{i}', objs[i].n_teeth + 7, q('InertiaMoment', 1))
+        add_gear_mating(tmp, objs[i], 1)
+    # the final relations, in the order the instance asks for (any order builds the same chain)
+    for i in inst.get('decl_order') or range(1, len(objs)):
+        declare(i)
     ld = {k: float(Fraction(v)) for k, v in inst['load'].items()}
     calls = []
     pt_holder = []
@@ -134,7 +144,7 @@ def build(inst, rnd=None):
         objs[-1].external_torque = external_torque
     pt = Powertrain(objs[0])
     pt_holder.append(pt)
-    return dict(objs=objs, pt=pt, motor=objs[0], calls=calls, q=q)
+    return dict(objs=objs, pt=pt, motor=objs[0], calls=calls, q=q, declare=declare)
 
 
 # ------------------------------------------------------------------ static description as the real objects hold it
@@ -355,10 +365,20 @@ def execute(tid, inst, rnd=None):
     epochs = []
     holder = {'events': {'rule': [], 'control': [], 'sensor': []}}
     ctl_cache, stop_cache = {}, {}
+    elems_by_epoch = []
+
+    def elems_now():
+        elems = static_desc(objs)
+        for i, d in enumerate(elems):
+            r = inst['elems'][i].get('rel')
+            d['rtype'] = r['type'] if r else 'none'
+            d['arg'] = '1' if not r or r.get('arg') is None else rstr(float(Fraction(r['arg'])) if Fraction(r['arg']).denominator != 1 else int(Fraction(r['arg'])))
+        return elems
 
     def close_epoch():
         time, hist, kinds_ok = read_hist(pt)
         epochs.append({'time': time, 'hist': hist, 'kinds_ok': kinds_ok})
+        elems_by_epoch.append(elems_now())          # relations may be re-declared between epochs
     for op in inst['ops']:
         k = op['op']
         rec = {'op': k}
@@ -372,6 +392,11 @@ def execute(tid, inst, rnd=None):
         elif k == 'new_solver':
             solvers[op['sid']] = Solver(pt)
             rec['sid'] = op['sid']
+        elif k == 'redeclare':
+            # the same mating declared again with another efficiency / friction (an efficiency sweep on a live model)
+            b['declare'](op['i'], op['arg'])
+            inst['elems'][op['i']]['rel'] = dict(inst['elems'][op['i']]['rel'], arg=op['arg'])
+            rec.update(i=op['i'] + 1, arg=str(op['arg']))
         elif k == 'set_pwm':
             v = Fraction(op['v'])
             objs[0].pwm = int(v) if v.denominator == 1 else float(v)
@@ -412,16 +437,12 @@ def execute(tid, inst, rnd=None):
             # property speaks about sequences of calls that return, so the schedule ends here
             break
     close_epoch()
-    elems = static_desc(objs)
-    for i, d in enumerate(elems):
-        r = inst['elems'][i].get('rel')
-        d['rtype'] = r['type'] if r else 'none'
-        d['arg'] = '1' if not r or r.get('arg') is None else rstr(float(Fraction(r['arg'])) if Fraction(r['arg']).denominator != 1 else int(Fraction(r['arg'])))
+    elems = elems_now()
     return {'id': tid, 'elems': elems, 'selfLocking': bool(pt.self_locking),
             'load': {k: rstr(float(Fraction(v))) for k, v in inst['load'].items()},
             'ctrls': [[_rule_desc(r, b) for r in rules] for rules in inst.get('ctrls', [])],
             'stops': [dict(s, thr=str(s['thr'])) for s in inst.get('stops', [])],
-            'ops': recs, 'epochs': epochs, 'units_used': sorted(f'{k}:{u}' for k, u in q.used)}
+            'ops': recs, 'epochs': epochs, 'elems_by_epoch': elems_by_epoch, 'units_used': sorted(f'{k}:{u}' for k, u in q.used)}
 
 
 def _rule_desc(r, b):
